@@ -43,8 +43,12 @@ def project(rng):
     files["pkg/quiet.py"] = "def quiet(a):\n    print(a)\n    return a * 8282\n"
     files["pkg/gen/out.py"] = "def out(a):\n    print(a)\n    return a * 8383\n"
     y = files[".thailint.yaml"]
-    for sec in ("magic-numbers", "improper-logging", "print-statements", "nesting", "srp", "method-property", "stateless-class", "lbyl", "collection-pipeline"):
-        block = "  ignore:\n    - \"pkg/quiet.py\"\n    - \"pkg/gen/\"\n"
+    # ... and directories inside the project that happen to be called like a directory the project may live under
+    files["pkg/fixtures/fx.py"] = "def fx(a):\n    print(a)\n    return a * 8484\n"
+    files["pkg/plain/pl.py"] = "def pl(a):\n    print(a)\n    return a * 8585\n"
+    for sec in ("magic-numbers", "improper-logging", "print-statements", "nesting", "srp", "method-property", "stateless-class", "lbyl", "collection-pipeline",
+                "dry", "stringly-typed", "file-header", "blocking-async", "clone-abuse", "unwrap-abuse"):
+        block = "  ignore:\n    - \"pkg/quiet.py\"\n    - \"pkg/gen/\"\n    - \"fixtures/\"\n    - \"plain/\"\n"
         if re.search(r"^%s:\n" % re.escape(sec), y, re.M):
             y = re.sub(r"^(%s:\n)" % re.escape(sec), lambda m: m.group(1) + block, y, count=1, flags=re.M)
         else:
